@@ -324,6 +324,11 @@ func (q *TaskQueue) addAfter(id string, newTask task.Task) {
 		}
 	}
 
+	// id is not in the queue: keep items as is instead of leaving an empty slot at the tail
+	if !idFound {
+		return
+	}
+
 	q.items = newItems
 }
 
@@ -356,6 +361,11 @@ func (q *TaskQueue) addBefore(id string, newTask task.Task) {
 			// when id is found, copy other taskы to i+1 position
 			newItems[i+1] = t
 		}
+	}
+
+	// id is not in the queue: keep items as is instead of leaving an empty slot at the tail
+	if !idFound {
+		return
 	}
 
 	q.items = newItems
